@@ -718,6 +718,8 @@ func runC19(c *Ctx) {
 	c.withOnlyKeys("R1", "R16", []string{"sshFxVersionPacket", "sshFxInitPacket"}, func() { runC06(c) })
 	// R17 (= C08.O14): the extension list of INIT/VERSION is decoded by a loop that ends on the decoder's error
 	c.withOnlyKeys("Z14", "R17", []string{"recvVersion", "sshFxInitPacket", "sshFxVersionPacket"}, func() { runC20(c) })
+	// R18 (= C08.O3/O4): a VERSION cut short is an error, not a shorter VERSION
+	c.withRule("R18", func() { checkFrameLimits(c, newZWorld(c.P)) })
 	// (C05 compares with package os on the posix builds only: the statvfs stub of the others answers op-unsupported)
 	if goos := goosOf(c.P.Cfg); goos != "windows" && goos != "plan9" {
 		c.withOnlyKeys("R1", "R15", []string{"sshFxpExtendedPacket"}, func() { runC05(c) })
